@@ -2,6 +2,7 @@ import AioModel.C11
 import AioModel.C11Conc
 import AioProps.C11Lemmas
 import AioProps.C11ConcLemmas
+import AioProps.C11Codec
 import AioProps.C12
 /-!
 # C11 — property theorems (writer model `AioModel/C11.lean` → reader model `AioModel/C12.lean`)
@@ -134,6 +135,55 @@ example : (feedAll (Z := toyInflater) ⟨0, false, true, 100⟩ {}
       [(sendAll (D := ⟨Unit, fun _ => (), fun _ m _ => ((), m)⟩) ⟨true, 0, false, 100⟩ {}
         [⟨1, [0x68, 0x69], 0, [1, 2, 3, 4]⟩, ⟨9, [], 0, [9, 9, 9, 9]⟩]).ws.out]).p.k.msgs
     = [.text [0x68, 0x69], .ping []] := by decide +kernel
+
+/-- **Codec round trip, permessage-deflate connection** — for every deflate/inflate pair that
+satisfies the `Codec` law (zlib is assumed to; `Codec.toy` shows the law is satisfiable), every
+negotiated window size, with or without context takeover (`notakeover` selects the flush mode),
+masked or not: any list of sends without per-message `compress=` override (control frames go
+out plain, data frames through the shared compressor) is delivered by a reader with compression
+negotiated as exactly these messages, in order, payloads identical, for **every** segmentation of
+the emitted bytes; no error, nothing retained.  Size hypotheses (`OkDefl`): the compressed bytes
+must be shorter than `max_msg_size` and the message at most `max_msg_size`.
+
+`_partial`: the property text also covers the per-message `compress=` override; with it the
+statement is FALSE on the unchanged code when context takeover is in use (the override
+compresses with a fresh context while the peer's single inflate context also consumes that
+message, so `Sync` is lost: the next shared-context message is delivered corrupted) — finding
+`C11/roundtrip/override-compress-desyncs-shared-context`, reproduced on the real code by the
+harness.  Full statement = this one without the `s.compress = 0` conjunct of `OkComp`. -/
+theorem codec_roundtrip_deflate_partial (C : Codec) (cfg : WCfg) (c : Cfg) (hcfg : cfg.compress ≠ 0)
+    (hc : c.compress = true) (sends : List Send)
+    (hall : OkComp C c cfg (C.D.init cfg.compress) sends)
+    (segs : List Bytes) (hsegs : segs.flatten = (sendAll (D := C.D) cfg {} sends).ws.out) :
+    (feedAll c ({} : Reader C.Z) segs).p.k.msgs = sends.map toMsg ∧
+    (feedAll c ({} : Reader C.Z) segs).exc = none ∧
+    retained (feedAll c ({} : Reader C.Z) segs) = 0 := by
+  have hout := sendAll_comp_out C c cfg hcfg sends {} (C.D.init cfg.compress) rfl rfl rfl hall
+  have hcore := segmentation_independent_init (Z := C.Z) c segs
+  rw [hsegs, hout] at hcore
+  simp only [List.nil_append] at hcore
+  have hfeed : (feed c ({} : Reader C.Z) (compWire C cfg (C.D.init cfg.compress) sends)).core =
+      loopK c (fuelFor (compWire C cfg (C.D.init cfg.compress) sends)) {}
+        (compWire C cfg (C.D.init cfg.compress) sends) := by
+    rw [feed_core]; rfl
+  obtain ⟨k', hidle, hm, he⟩ := loopK_comp_all C c hc cfg sends (C.D.init cfg.compress) {} _
+    ⟨rfl, rfl, rfl, rfl, Or.inr rfl⟩ (C.init_sync _) hall (need_le_fuelFor _ _)
+  rw [hfeed, he] at hcore
+  have h1 : (feedAll c ({} : Reader C.Z) segs).p.k = k' := congrArg RK.k hcore
+  have h2 : (feedAll c ({} : Reader C.Z) segs).tail = [] := congrArg RK.tail hcore
+  have h3 : (feedAll c ({} : Reader C.Z) segs).exc = none := congrArg RK.exc hcore
+  refine ⟨by rw [h1, hm]; rfl, h3, ?_⟩
+  unfold retained
+  rw [h2, h1, hidle.2.1, hidle.2.2.1]; rfl
+
+-- the hypotheses are satisfiable: a text message and a ping on a compressed, masked connection
+example : OkComp Codec.toy ⟨0, true, true, 100⟩ ⟨true, 15, false, 100⟩ ()
+    [⟨1, [0x68, 0x69], 0, [1, 2, 3, 4]⟩, ⟨9, [], 0, [5, 6, 7, 8]⟩] := by
+  refine ⟨rfl, fun _ => rfl, ?_⟩
+  simp only [show ¬ ((1:Nat) ≥ 8) by decide, if_false]
+  refine ⟨⟨Or.inl rfl, by decide, Or.inl rfl, fun _ _ => by decide⟩, rfl, fun _ => rfl, ?_⟩
+  simp only [show ((9:Nat) ≥ 8) by decide, if_true]
+  exact ⟨⟨by decide, Or.inr (Or.inl ⟨Or.inl rfl, by decide⟩)⟩, trivial⟩
 
 /-! ## concurrent senders (model `AioModel/C11Conc.lean`) -/
 
